@@ -345,8 +345,12 @@ def run_one(bdir, system, events, lint=True, extra_args=(), view_from=0, ties=Fa
         td = os.path.join(d, "ovni")
         conc = [concretise(e) for e in events]
         models = require_for(set(system["models"]))
+        mextra = meta_extra_for(system)
+        if "-b" in extra_args and "V" in system["models"]:
+            for k_ in range(1, len(system["threads"]) + 1):
+                mextra.setdefault(k_, {})["nosv.can_breakdown"] = True
         clocks = synth.materialise(td, system, conc, models=models,
-                                   meta_extra=meta_extra_for(system),
+                                   meta_extra=mextra,
                                    clocks=tie_clocks(events) if ties else None)
         from . import emu
         args = (["-l"] if lint else []) + list(extra_args)
